@@ -44,6 +44,14 @@ func genSpec(r *rand.Rand, name string) adapt.TableSpec {
 	if s.Range != "" && r.Intn(3) == 0 {
 		s.Indexes = append(s.Indexes, adapt.IndexSpec{Name: "lsi1", Hash: "h", Range: "s", Local: true})
 	}
+	if r.Intn(4) == 0 {
+		// an index over the table's own key attributes ("inverted" for hash+range tables)
+		if s.Range != "" {
+			s.Indexes = append(s.Indexes, adapt.IndexSpec{Name: "gsi4", Hash: "r", Range: "h"})
+		} else {
+			s.Indexes = append(s.Indexes, adapt.IndexSpec{Name: "gsi4", Hash: "g", Range: "h"})
+		}
+	}
 	return s
 }
 
@@ -141,7 +149,7 @@ func genOp(r *rand.Rand, m *model.Client, w opWeights, salt int) adapt.Op {
 				if r.Intn(5) == 0 {
 					return adapt.Op{Kind: adapt.OpUpdateTable, Table: name, Chg: []adapt.IndexChange{{Update: mon.Pick(r, []string{"gsi1", "gsi2", "gsi3", "nosuch"})}}}
 				}
-				del := mon.Pick(r, []string{"gsi1", "gsi2", "gsi3", "nosuch"})
+				del := mon.Pick(r, []string{"gsi1", "gsi2", "gsi3", "gsi4", "nosuch"})
 				if del == "lsi1" {
 					del = "nosuch"
 				}
